@@ -521,11 +521,55 @@ class InterpolatableFunction(ABC):
         ## Outside the interpolation region use whatever extrapolation
         ## type the function uses
         if xEvaluateRegion.size > 0:
-            results[needsEvaluationCondition] = helpers.derivative(
-                self._evaluateOutOfBounds, x, n=order, epsilon=epsilon, scale=scale
+            results[needsEvaluationCondition] = self._derivativeOutOfBounds(
+                xEvaluateRegion, order, epsilon, scale
             )
 
         return results
+
+    def _derivativeOutOfBounds(
+        self, x: np.ndarray, order: int, epsilon: float, scale: float
+    ) -> np.ndarray:
+        """Derivative at points outside the table (x is 1D), following the
+        extrapolation type of the side each point lies on."""
+        bAllNone = (
+            self.extrapolationTypeLower == EExtrapolationType.NONE
+            and self.extrapolationTypeUpper == EExtrapolationType.NONE
+        )
+        if bAllNone:
+            return helpers.derivative(
+                self._evaluateDirectly, x, n=order, epsilon=epsilon, scale=scale
+            )
+        if self._RETURN_VALUE_COUNT > 1:
+            res = np.empty(x.shape + (self._RETURN_VALUE_COUNT,))
+        else:
+            res = np.empty(x.shape)
+        xLower = x < self._rangeMin
+        for mask, extrapolationType in (
+            (xLower, self.extrapolationTypeLower),
+            (~xLower, self.extrapolationTypeUpper),
+        ):
+            if not np.any(mask):
+                continue
+            match extrapolationType:
+                case EExtrapolationType.ERROR:
+                    raise ValueError(
+                        f"Out of bounds: {x} outside "
+                        f"[{self._rangeMin}, {self._rangeMax}]"
+                    )
+                case EExtrapolationType.NONE:
+                    res[mask] = helpers.derivative(
+                        self._evaluateDirectly,
+                        x[mask],
+                        n=order,
+                        epsilon=epsilon,
+                        scale=scale,
+                    )
+                case EExtrapolationType.CONSTANT:
+                    res[mask] = 0.0
+                case EExtrapolationType.FUNCTION:
+                    res[mask] = self._interpolatedDerivatives[order - 1](x[mask])
+        return res
 
     def _findInterpolatablePoints(
         self,
